@@ -3431,10 +3431,15 @@ class Mailbox:
 
         async for mbox_name, attrs_str, subscribed in server.db.query(query):
             attrs = set(attrs_str.split(","))
+            # The pattern is matched against the name as it is stored (like
+            # the query of the plain LIST does): the inbox is stored as
+            # `inbox` and presented as `INBOX`.
+            #
+            db_name = mbox_name
             if mbox_name.lower() == "inbox":
                 mbox_name = "INBOX"
 
-            if pattern_re.search(mbox_name):
+            if pattern_re.search(db_name):
                 # Matches both selection criteria and pattern.
                 #
                 if subscribed_selection and subscribed:
